@@ -4,6 +4,7 @@
 f17_0:
   ret
   call f7_1
+  mov wvsv1(%rip),%rax
   ret
 .section .text.f17_1,"ax",@progbits
 .globl f17_1
@@ -11,4 +12,8 @@ f17_0:
 f17_1:
   ret
   call f4_0
+  mov wvsv1(%rip),%rax
+  mov wvsv1@GOTPCREL(%rip),%rax
+  mov wvsv0@GOTPCREL(%rip),%rax
+  mov wvsv1(%rip),%rax
   ret
